@@ -180,10 +180,15 @@ def run(tier, seed):
     chk.add_tlc(g)
     fcases = C.parse_payload(g.lines, "CASE ")
     s = C.tlc("UtilSession", "gen_Session_%d.cfg" % (1 if tier == "quick" else 2), rd, workers=4, heap="4g",
-              prefixes=("CASE ", "ENDS ", "CMDL "))
+              prefixes=("CASE ", "ENDS ", "CMDL ", "LONG "))
     chk.add_tlc(s)
     sessions = C.parse_payload(s.lines, "CASE ")
     ends = sorted(C.parse_payload(s.lines, "ENDS "), key=lambda x: json.dumps(x, sort_keys=True))
+    longs = C.parse_payload(s.lines, "LONG ")
+    if not longs or len(longs[0]) < 200:
+        raise C.InfraError("no long-text histories")
+    # (they run through the loop that renders the sessions with endings)
+    ends += [dict(cmds=c, end="quit") for c in sorted(longs[0], key=lambda x: json.dumps(x, sort_keys=True))]
     if len(ends) < 1500:
         raise C.InfraError("only %d sessions with endings" % len(ends))
     if tier == "quick":
@@ -237,9 +242,15 @@ def run(tier, seed):
         cid = "e%d" % i
         lines = []
         for x in e["cmds"]:
-            lines.append(("%s %s" % (x["cmd"], x["arg"])).strip())
+            arg = re.sub(r"@W(\d+)@", lambda m: ("0x400 " + "1 2 3 4 5 6 7 8 9 " * 200)[:int(m.group(1))].rstrip(), x["arg"])
+            lines.append(("%s %s" % (x["cmd"], arg)).strip())
             if "body" in x:
-                lines += [re.sub(r"@L(\d+)@", lambda m: ("nop ; " + "x" * int(m.group(1)))[:int(m.group(1))], b) for b in x["body"]]
+                for b in x["body"]:
+                    m = re.match(r"@R(\d+)@$", b)
+                    if m:
+                        lines += ["  mov.w #%d, r6" % n for n in range(int(m.group(1)))]
+                    else:
+                        lines.append(re.sub(r"@L(\d+)@", lambda m: ("nop ; " + "x" * int(m.group(1)))[:int(m.group(1))], b))
                 if x["closed"]:
                     lines.append("")
         script = "\n".join(lines) + "\n" + ({"quit": "quit\n", "exit": "exit\n", "eof": ""}[e["end"]])
